@@ -72,10 +72,11 @@ def _mc_threads(prog, pc, info, d, opts, out):
     for cfgi, cfg in enumerate(configs):
         cycles, n_out, preempt = cfg[:3]
         clients = [f'c{i}' for i in range(cfg[3] if len(cfg) > 3 else 2)]
+        variant = cfg[4] if len(cfg) > 4 else 0
         samples: List = []
         before = out['stats']['paths']
         fs = tscenario.mc_threads(prog, pc, out['stats'], cycles=cycles, n_out=n_out, max_preempt=preempt,
-                                  max_schedules=opts.get('max_schedules', 20000), n_clients=len(clients),
+                                  max_schedules=opts.get('max_schedules', 20000), n_clients=len(clients), variant=variant,
                                   samples_out=samples, sample_every=opts.get('sample_every', 97))
         for f in fs:
             f.witness['clients'] = clients
@@ -83,7 +84,7 @@ def _mc_threads(prog, pc, info, d, opts, out):
         val['schedules'] += out['stats']['paths'] - before
         n_val = opts.get('n_validate', 3)
         if n_val and samples:
-            exe, diag = cppthreads.build(info, pc, d, cycles, n_out, clients)
+            exe, diag = cppthreads.build(info, pc, d, cycles, n_out, clients, variant=variant)
             if not exe:
                 val['detail'] = 'threaded driver does not compile: ' + diag[:300]
                 continue
@@ -93,7 +94,7 @@ def _mc_threads(prog, pc, info, d, opts, out):
                 ce = cppthreads.events_of(stdout)
                 me = [tuple(e) for e in smp['events']]
                 val['checked'] += 1
-                if st == 'ok' and ce == me and not cppthreads.judge(stdout):
+                if st == 'ok' and ce == me and bool(cppthreads.judge(stdout)) == bool(smp.get('bad_delivery')):
                     val['agree'] += 1
                     val['events'] += len(me)
                 elif not val['detail']:
@@ -235,14 +236,15 @@ def replay_finding(args) -> Dict:
                 how = ''
                 if wit.get('schedule'):
                     # the machine's schedule on the ThreadSanitizer build (gates do not synchronise there)
-                    exe, diag = cppthreads.build(info, pc, d, wit.get('cycles', 1), wit.get('n_out', 1), clients, tsan=True)
+                    exe, diag = cppthreads.build(info, pc, d, wit.get('cycles', 1), wit.get('n_out', 1), clients, tsan=True,
+                                                 variant=wit.get('variant', 0))
                     if exe:
                         st, _o, err = cppthreads.run(exe, wit['schedule'], timeout=120)
                         reps.update(cppthreads.tsan_reports(err))
                         how = 'under the schedule of the finding'
                 if not reps:
                     exe, diag = cppthreads.build(info, pc, d, max(wit.get('cycles', 1), 2), max(wit.get('n_out', 1), 2),
-                                                 clients, tsan=True)
+                                                 clients, tsan=True, variant=wit.get('variant', 0))
                     if exe:
                         for _ in range(12):
                             st, _o, err = cppthreads.run(exe, [], timeout=120)
@@ -257,12 +259,18 @@ def replay_finding(args) -> Dict:
                 else:
                     out['detail'] = 'TSan build failed: ' + diag[:200]
             else:
-                exe, diag = cppthreads.build(info, pc, d, wit.get('cycles', 1), wit.get('n_out', 1), clients)
+                exe, diag = cppthreads.build(info, pc, d, wit.get('cycles', 1), wit.get('n_out', 1), clients,
+                                             variant=wit.get('variant', 0))
                 if not exe:
                     out['detail'] = 'build failed: ' + diag[:200]
                 else:
                     st, stdout, _e = cppthreads.run(exe, wit.get('schedule', []))
-                    if 'deadlock' in key:
+                    if 'exception-escapes' in key:
+                        exc_name = str(wit.get('exception', '')).split('::')[-1]
+                        out['reproduced'] = st == 'crash' and ('terminate' in _e or exc_name in _e)
+                        out['detail'] = ('compiled program: ' + _e.strip().replace('\n', ' | ')[:300]) if st == 'crash' \
+                            else f'compiled program ends normally under the schedule ({st})'
+                    elif 'deadlock' in key:
                         out['reproduced'] = st == 'timeout'
                         out['detail'] = 'compiled program does not terminate under the schedule' if st == 'timeout' \
                             else 'compiled program terminates under the schedule'
